@@ -111,8 +111,12 @@ FINDINGS = {
                "v1 = (lambda *r1, p2=1, **k1: (r1, p2, k1))(7)"]),
     "C19-function-default-names": dict(
         flags=["fn_default_free"], expr_positions=["filter-arg", "filter-kwarg"],
-        expr=["fcall(lambda p1=ia: p1)", "fcall(lambda p1=ib + 1, *r1: p1)"],
-        block=["def g1(p1=ia):\n    return p1\nv1 = g1()", "v1 = (lambda p1=ia + 1: p1)()"]),
+        expr=["fcall(lambda p1=ia: p1)", "fcall(lambda p1=ib + 1, *r1: p1)",
+              # the x=x idiom: the default is read in the enclosing scope, before the parameter of that name exists
+              "fcall(lambda ia=ia: ia)", "fcall(lambda *, ib=ib + 1: ib)"],
+        block=["def g1(p1=ia):\n    return p1\nv1 = g1()", "v1 = (lambda p1=ia + 1: p1)()",
+               "def g1(ia=ia):\n    return ia\nv1 = g1()", "def g1(p1, *, ib=ib):\n    return p1 + ib\nv1 = g1(1)",
+               "v1 = (lambda sa=sa: sa)()", "def g1(p1):\n    def g2(p1=ia, ia=ib):\n        return p1 + ia\n    return g2()\nv1 = g1(0)"]),
     "C19-comprehension-in-function-names": dict(
         flags=["fn_comp_free"], expr_positions=["filter-arg", "filter-kwarg"],
         expr=["fcall(lambda: [ia for c1 in (1, 2)])", "fcall(lambda: [c1 for c1 in (1, 2) if ba])",
@@ -995,7 +999,7 @@ class MarginGen:
             else:
                 self.lines.append([kind, level, text])
         if len(ex) == 1 and self.chance(12):
-            self.lines[-1][2] += "  # note " + self.pick(["1", "it", "x = y"])
+            self.lines[-1][2] += "  # note " + self.pick(["1", "it", "x = y", "C:\\tmp\\", "ends \\"])  # (a backslash ending a comment continues nothing)
         return v
 
     def stmts(self, level, n, depth):
@@ -1003,7 +1007,7 @@ class MarginGen:
         for _ in range(n):
             k = self.n(12)
             if self.chance(10):
-                self.lines.append(["code", level, "# " + self.pick(["c", "plain comment", "x: y"])])
+                self.lines.append(["code", level, "# " + self.pick(["c", "plain comment", "x: y", "dir\\"])])
             if self.chance(8):
                 self.lines.append(["blank", 0, self.pick(["", "", "  "])])
             if k <= 6 or depth <= 0:
